@@ -111,7 +111,7 @@ PROPS = {
         rule=("case = one product-kernel call on worst-case operands (kernel, ref/avx2, ell, x/y family) or one traced "
               "transform batch (n, lane family, repetition: ntt, intt of its output, intt and ntt on the raw lanes); "
               "distinct by descriptor hash; non-trivial when ell >= 1 / n >= 2 with at least one lane >= 2^63"),
-        require={"all": ["product_lanes_checked", "max_ell_products", "h2_stage_events", "h2_traced_transforms"]},
+        require={"all": ["product_lanes_checked", "max_ell_products", "h2_stage_events", "h2_traced_transforms", "concurrently_built_tables"]},
         assumptions=["hook H2 reports every stage of the real schedule; the shadow re-executes it in 128-bit arithmetic "
                      "from the library's own metadata and must reproduce the real lanes bit for bit",
                      "the interval envelope is reported as information (conservative bounds), never as a violation",
@@ -127,7 +127,7 @@ PROPS = {
               "transform twice on a guarded exact-size buffer; distinct by descriptor hash; non-trivial when m >= 2 "
               "and the input is non-zero"),
         require={"all": ["transforms_checked", "horner_validations", "impl:dispatch-native", "impl:dispatch-generic",
-                         "impl:ref-direct", "impl:avx2-direct", "impl:leaf-avx", "impl:leaf-ref", "impl:bfs16-ref",
+                         "impl:ref-direct", "impl:avx2-direct", "impl:leaf-avx", "impl:leaf-ref", "impl:bfs16-ref", "impl:builtin-buffers",
                          "impl:rec16-ref"]},
         assumptions=["long-double FFT oracle (own twiddles by cosl/sinl), its rounding (about log2(m) 2^-64 relative) "
                      "added to the tolerance; validated per case against __float128 Horner evaluation at sampled outputs",
@@ -199,7 +199,7 @@ PROPS = {
               "points of the phase on private data against the shared modules/tables; distinct by descriptor hash; "
               "non-trivial when at least one pair of calls from different threads overlapped in time"),
         require={"all": ["concurrent_calls", "overlapping_call_pairs", "tsan_instrumented_calls", "ro_protected_bytes",
-                         "schedule:free", "schedule:pinned-2cpu", "schedule:yield",
+                         "schedule:free", "schedule:pinned-2cpu", "schedule:yield", "concurrent_constructions",
                          "entry_points_observed_concurrently", "overlap_pairs"]},
         assumptions=["gcc ThreadSanitizer happens-before detection (does not see accesses made inside the four .s kernels, "
                      "which only touch caller data)", "in the 'ro' build every allocation made while creating modules and "
@@ -227,7 +227,7 @@ PROPS = {
               "entry point called with several argument seeds, each call with byte snapshots of all its source buffers "
               "(padding included) and a table hash after each entry point; distinct by descriptor hash; non-trivial when "
               "at least one call with a non-empty source ran"),
-        require={"all": ["calls_snapshotted", "source_bytes_compared", "table_bytes_compared", "ro_protected_bytes"]},
+        require={"all": ["calls_snapshotted", "source_bytes_compared", "table_bytes_compared", "ro_protected_bytes", "inplace_tail_checks"]},
         assumptions=["sources deliberately overwritten by contract are declared INOUT in the catalogue (vec_znx_idft_tmp_a, "
                      "in-place transforms, accumulating products) and are not snapshotted",
                      "table hashes cover every allocation whose layout is known; in the 'ro' build all allocations made "
